@@ -60,6 +60,8 @@ ITEMS = {
     "copy_from_index_true": (_t(lambda: sa.Column("x", sa.Integer, index=True)), [{"id": 1, "x": 5}, {"id": 2, "x": 5}], ADD, {}),
     "copy_from_unique_true": (_t(lambda: sa.Column("x", sa.Integer, unique=True)), [{"id": 1, "x": 5}, {"id": 2, "x": None}], ADD, {}),
     "sqlite_autoincrement": (_t(lambda: sa.Column("x", sa.Integer), sqlite_autoincrement=True), [{"id": 1, "x": 5}], ADD, {"keep_sql": "AUTOINCREMENT"}),
+    "sqlite_autoincrement_alter_pk": (_t(lambda: sa.Column("x", sa.Integer), sqlite_autoincrement=True), [{"id": 1, "x": 5}],
+                                      [_alter("id", nullable=False, comment="pk"), _alter("x", nullable=True)], {"keep_sql": "AUTOINCREMENT"}),
     "naming_convention_drop": (_t(lambda: sa.Column("x", sa.Integer), lambda: sa.UniqueConstraint("x")), [{"id": 1, "x": 5}],
                                [{"op": "drop_constraint", "name": "uq_t_x", "type": "unique"}], {"nc": True}),
     "naming_convention_reflected_drop": (_t(lambda: sa.Column("x", sa.Integer), lambda: sa.UniqueConstraint("x")), [{"id": 1, "x": 5}],
